@@ -29,7 +29,9 @@ type edit struct {
 
 const importPath = "github.com/cloudflare/circl/internal/verifmc/sched"
 
-func instrument(path string) ([]byte, int, error) {
+// instrument rewrites one file; if only is non-empty, only the functions /
+// methods with those names get scheduling points (sync/go rewrites stay global).
+func instrument(path string, only map[string]bool) ([]byte, int, error) {
 	src, err := os.ReadFile(path)
 	if err != nil {
 		return nil, 0, err
@@ -62,8 +64,20 @@ func instrument(path string) ([]byte, int, error) {
 			points++
 		}
 	}
+	skip := map[*ast.BlockStmt]bool{}
+	if len(only) > 0 {
+		for _, d := range f.Decls {
+			if fd, ok := d.(*ast.FuncDecl); ok && fd.Body != nil && !only[fd.Name.Name] {
+				skip[fd.Body] = true
+			}
+		}
+	}
 	ast.Inspect(f, func(n ast.Node) bool {
 		switch x := n.(type) {
+		case *ast.FuncDecl:
+			if x.Body != nil && skip[x.Body] {
+				return false
+			}
 		case *ast.BlockStmt:
 			stmts(x.List)
 		case *ast.CaseClause:
@@ -120,11 +134,19 @@ func main() {
 	res := map[string]string{}
 	total := 0
 	for i, p := range flag.Args() {
+		var only map[string]bool
+		if k := strings.Index(p, "#"); k >= 0 {
+			only = map[string]bool{}
+			for _, fn := range strings.Split(p[k+1:], ",") {
+				only[fn] = true
+			}
+			p = p[:k]
+		}
 		if _, err := os.Stat(p); err != nil {
 			fmt.Fprintf(os.Stderr, "instr: skipping %s: %v\n", p, err)
 			continue
 		}
-		b, n, err := instrument(p)
+		b, n, err := instrument(p, only)
 		if err != nil {
 			fmt.Fprintf(os.Stderr, "instr: %s: %v\n", p, err)
 			os.Exit(1)
